@@ -31,8 +31,8 @@ META = {
          'Generated-input search for escaping exceptions: all entry points and every read-only accessor on every node, only SQLParseError may escape; the invalid-option table is enumerated completely and must be rejected with SQLParseError before the input stream is read.',
          'right_margin excluded (undocumented, NotImplementedError by design); accessors called with default arguments'),
  'C08': ('expected token sequence derived from the lexing of the input vs. re-lexed output + fixed-point check (Hypothesis)', '6 C08',
-         'Generated scripts x one targeted filter (alone or combined with layout/other options): the non-whitespace token sequence expected from the input lexing (comments minus hints removed, Keyword / Name tokens re-cased, long String.Single cut to N + marker) must equal the re-lexed output, so nothing else changes and nothing is fused or split; alone, a second application must change nothing.',
-         'token types of the input come from the lexer (C01/C14); truncate_char without quotes/backslashes; known findings F6, F7, F19 excluded/attributed'),
+         'Generated scripts x one targeted filter (alone or combined with layout/other options): the non-whitespace token sequence expected from the input lexing (comments minus hints removed, Keyword / Name tokens re-cased, long String.Single cut to N + marker) must equal the re-lexed output, so nothing else changes and nothing is fused or split; alone, a second application must change nothing.  `written-literals` leg: statements built from literals the generator wrote (plain and with a type prefix N/E/X/B/U&/_charset, lengths around N), the output must be the exact text with each written literal cut to N + marker - an expectation that does not move with the library lexer.',
+         'token types of the input come from the lexer (C01/C14) except in the written-literals leg; truncate_char without quotes/backslashes; known findings F6, F7, F19 excluded/attributed'),
  'C10': ('normal-form predicates over the whitespace gaps located by lexmatch + fixed-point checks (Hypothesis)', '6 C10',
          'Generated scripts x {strip_whitespace; use_space_around_operators; reindent x sub-options}: gaps between the written words are located in the output; NF1/NF2/NF3 predicates are evaluated on them and on the output lexing; NF1 and NF2 are applied twice.',
          'whitespace inside a multi-word keyword token is not a gap; a line comment owns its line end; known findings F6, F8b, F9b excluded from the main legs by construction and attributed in hazard legs'),
